@@ -32,9 +32,13 @@ PROPS['C01'] = dict(
     level_note=('Trusted: the VC generator itself, z3, Lean+Mathlib, the by-inspection match between z3 postconditions and Lean hypothesis structures, value-class and '
                 'ownership assumptions of DESIGN section 2, injectivity of merged-state names rests on the proved contract of StateNamer._get (after fix 60ce915); '
                 'partial correctness only.'),
-    pyvc=fa('ENFA._get_next_states_iterable', 'ENFA.eclose', 'ENFA.eclose_iterable', 'ENFA.accepts',
-            'ENFA.remove_epsilon_transitions', 'ENFA._to_deterministic_internal', 'ENFA.copy') + [('contracts.fa_namer', 'NamerC._get')],
-    lean=['bridge/run.lean', 'bridge/epsrem.lean', 'bridge/detsim.lean'],
+    pyvc=fa('ENFA._get_next_states_iterable', 'ENFA.eclose', 'ENFA.eclose_iterable', 'ENFA.accepts', 'NFA.accepts', 'DFA.accepts',
+            'ENFA.remove_epsilon_transitions', 'ENFA._to_deterministic_internal', 'ENFA.copy', 'ENFA.to_deterministic', 'NFA.to_deterministic', 'DFA.to_deterministic', 'DFA.copy',
+            'ENFA.add_transition', 'ENFA.remove_transition', 'ENFA.add_start_state', 'ENFA.remove_start_state', 'ENFA.add_final_state', 'ENFA.remove_final_state',
+            'ENFA.__call__', 'ENFA.is_final_state', 'ENFA.add_symbol', 'DFA.add_start_state', 'DFA.remove_start_state', 'NFA.add_transition')
+         + [('contracts.fa_namer', 'NamerC._get')]
+         + [('contracts.fa_concrete', k) for k in ('NTF.add_transition', 'NTF.remove_transition', 'NTF.__call__', 'NTF.is_deterministic', 'DTF.add_transition', 'DTF.remove_transition', 'DTF.__call__')],
+    lean=['bridge/run.lean', 'bridge/runn.lean', 'bridge/epsrem.lean', 'bridge/detsim.lean'],
     bounded='bounded.c01', replayer='bounded.replay_fa',
     bounded_only=['DeterministicFiniteAutomaton.minimize', 'DeterministicFiniteAutomaton._get_partition', 'Partition/HopcroftProcessingList (Hopcroft refinement: numpy object arrays + intrusive linked lists)'],
     explanation=('mixed: the functions listed under functions_proved are verified deductively from their current source against sidecar contracts '
@@ -70,7 +74,7 @@ PROPS['C03'] = dict(
                 'give the language statement). union, concatenate, kleene_star go through to_regex/Regex text and are only bounded-checked against reference constructions with an exact '
                 'equivalence oracle. Mixed, hence level other.'),
     level_note='Trusted: VC generator, z3, Lean+Mathlib, by-inspection match of postconditions and Lean structures, premises #pair_injective and trash-state freshness (see known findings), value/ownership assumptions; bounded part: reference semantics.',
-    pyvc=fa('ENFA.get_intersection', 'ENFA.get_difference', 'ENFA.reverse', 'ENFA.copy') + [('contracts.fa_namer', 'NamerC._get')],
+    pyvc=fa('ENFA.get_intersection', 'ENFA.get_complement', 'ENFA.get_difference', 'ENFA.reverse', 'ENFA.copy', 'DFA.copy', 'ENFA.to_deterministic', 'ENFA._to_deterministic_internal', 'ENFA.eclose_iterable', 'ENFA.eclose') + [('contracts.fa_namer', 'NamerC._get')],
     lean=['bridge/prod.lean', 'bridge/compl.lean', 'bridge/rev.lean'],
     bounded='bounded.c03', replayer='bounded.replay_fa',
     bounded_only=['Regexable.union', 'Regexable.concatenate', 'Regexable.kleene_star', 'EpsilonNFA.to_regex and helpers'],
@@ -86,7 +90,7 @@ PROPS['C04'] = dict(
     level_text=('Deductive for EpsilonNFA.is_empty (worklist reachability, all automata, all orders; Lean lemma empty gives "no word accepted") and EpsilonNFA.is_deterministic '
                 '(postcondition is the property wording). is_acyclic and get_accepted_words (order-dependent pruning, generator, termination) are bounded only. Mixed => other.'),
     level_note='Trusted: VC generator, z3, Lean+Mathlib, closure-induction schema instances, value assumptions; termination of get_accepted_words on finite languages is only observed on the bounded scope with a step budget.',
-    pyvc=fa('ENFA.is_empty', 'ENFA.is_deterministic', 'ENFA.eclose'),
+    pyvc=fa('ENFA.is_empty', 'ENFA.is_deterministic', 'NFA.is_deterministic', 'DFA.is_deterministic', 'ENFA.eclose') + [('contracts.fa_concrete', 'NTF.is_deterministic')],
     lean=['bridge/empty.lean'],
     bounded='bounded.c04', replayer='bounded.replay_fa',
     bounded_only=['FiniteAutomaton.is_acyclic', 'FiniteAutomaton.get_accepted_words', '_get_states_leading_to_final', 'NFA.is_deterministic', 'DFA.is_deterministic'],
